@@ -68,7 +68,8 @@ fn make_name(operation_id: Option<&String>, method: &str, path: &str) -> String 
         })
         .unwrap_or_default();
     let name = names.join("_");
-    format!("{method}{name}{last_group}")
+    // as for explicit ids: a dot (`/v1.0/items`, `{user.id}`) is not a word boundary for the case conversions
+    format!("{method}{name}{last_group}").replace(".", "_")
 }
 
 fn extract_doc(operation: &Operation, format: DocFormat) -> Option<Doc> {
